@@ -62,6 +62,14 @@ impl Ranges {
         }
         self.v.len() == 1 && self.v[0] == (0, n)
     }
+    /// length of the contiguous run starting exactly at `from` (0 if `from` is not covered)
+    pub fn prefix_len_from(&self, from: u64) -> u64 {
+        self.v.iter().find(|&&(x, y)| x <= from && from < y).map_or(0, |&(_, y)| y - from)
+    }
+    /// does the set cover [0, n)?
+    pub fn covers_prefix(&self, n: u64) -> bool {
+        n == 0 || self.v.first().is_some_and(|&(x, y)| x == 0 && y >= n)
+    }
     pub fn max_end(&self) -> u64 {
         self.v.last().map_or(0, |x| x.1)
     }
